@@ -3,6 +3,7 @@
 -/
 import RaftVerif.Driver.Text
 import RaftVerif.Model.LogFile
+import RaftVerif.Model.Meta
 namespace Raft.Text
 open Raft.Bytes Raft.Codec Raft.LogFile
 
@@ -105,6 +106,15 @@ def storageLine (secs : List String) : Option String :=
       let ms := joinList (c.members.map (fun kv => s!"{showHex kv.1}:{showHex kv.2}"))
       let vs := joinList (c.voters.map (fun kv => s!"{showHex kv.1}:{showBool kv.2}"))
       some s!"index={c.index} members={ms} voters={vs}"
+  | ["ENC", "META", kvs] =>
+    let kv := parseKV kvs
+    let c := kv.get "cfg" "nil"
+    let m : Raft.Meta.SnapMeta := { index := natOr (kv.get "li"), term := natOr (kv.get "lt"), config := if c == "nil" then none else some (hexOr c) }
+    some (showHex (Raft.Meta.encodeMeta m))
+  | ["DEC", "META", hex] =>
+    match Raft.Meta.decodeMeta (hexOr hex) with
+    | none => some "err"
+    | some m => some s!"li={m.index} lt={m.term} cfg={match m.config with | none => "nil" | some c => showHex c}"
   | _ => none
 
 end Raft.Text
